@@ -21,6 +21,7 @@ void check_C11(Src &s, Ctx &ctx) {
     SpecOpts so; so.min_outs = 0; so.max_outs = 3; so.cap = cfg().tier ? 300 : 200;
     GridState st; st.cap = so.cap; st.ctx = &ctx;
     st.spec = decode_spec(s, so); st.vm.decode(s);
+    if (s.n >= 3 && (s.p[s.n - 1] % 8) == 5) { st.vm.degenerate = 1 + (s.p[s.n - 2] % 3); ctx.label("model:degenerate"); }   // one case in eight: constant / affine / one-active-direction model (coefficients vanish exactly)
     if (s.chance(2, 3) && st.spec.outs < 2) st.spec.outs = 2 + s.pick(2);   // range copies need several outputs
     make_grid(st.g, st.spec, so.cap);
     ctx.log(st.spec.text());
